@@ -51,6 +51,11 @@ pub trait Field:
     fn err(self) -> f64 {
         0.0
     }
+    /// the same value with `units` more units of u of absolute error allowed (no-op in the
+    /// exact field); for laws whose error is absolute, of the size of the operands
+    fn with_abs_err(self, _units: f64) -> Self {
+        self
+    }
 }
 
 impl Field for Ex {
@@ -204,5 +209,8 @@ impl Field for Sh {
     }
     fn err(self) -> f64 {
         self.e
+    }
+    fn with_abs_err(self, units: f64) -> Sh {
+        Sh { v: self.v, e: self.e + units }
     }
 }
